@@ -43,19 +43,32 @@ func c11HaltRace(r *Run) {
 		return
 	}
 	const dbName = "db"
-	c := n.NewConn(dbName, ModeDelete, 4096)
-	if e := c.Open(); e != 0 {
-		r.Inconclusive("create: %v", e)
+	// a rollback-journal or (one run in three) a WAL database with a few
+	// commits, some of them still in the log
+	hh := &hist{r: r, n: n, name: dbName, pageSize: 4096, jmode: ModeDelete, maxPages: 8}
+	if !hh.openConns(1) {
 		return
 	}
-	if res := c.WriteTx(TxProgram{NewSize: 2, Outcome: OutCommit}, nil); res.Outcome != OutCommit {
-		r.Inconclusive("create: %s", res.Outcome)
+	for i := 0; i < 3 && hh.ref.N() < 2; i++ {
+		hh.commit(t)
+	}
+	wal := t.Chance(1, 3)
+	if wal && hh.ref.N() > 0 {
+		if !hh.toWAL() {
+			return
+		}
+		for i, k := 0, t.Range(0, 2); i < k; i++ {
+			hh.commit(t)
+		}
+	}
+	hh.closeConns()
+	r.Cfg["wal"] = hh.wal
+	if r.Failed() {
 		return
 	}
 	db := n.Store.DB(dbName)
-	if db == nil {
-		r.Inconclusive("no database")
-		return
+	if db == nil || db.Pos().TXID == 0 {
+		return // (every drawn program rolled back: no database to halt)
 	}
 	s := r.NewSched()
 	installLockSeam(r, n, db, nil)
@@ -217,7 +230,22 @@ func c11HaltRace(r *Run) {
 					if g := liveNow(); g != nil {
 						r.Failf("c11.halt-local-shared", "a local connection was granted SHARED while halt lock id=%d is held by a remote node (%v left)", g.id, time.Until(g.expires))
 					}
-					if lc.LockReserved() == 0 {
+					if hh.wal {
+						// a WAL connection writes under the wal-index's WRITE lock
+						if lc.WalOpen() == 0 {
+							if _, e := lc.WalBeginRead(); e == 0 {
+								if _, e := lc.WalBeginWrite(); e == 0 {
+									if g := liveNow(); g != nil {
+										r.Failf("c11.halt-local-reserved", "a local connection was granted the WAL write lock while halt lock id=%d is held by a remote node (%v left)", g.id, time.Until(g.expires))
+									}
+									r.Count("c11.halt.local-write-lock")
+									lc.WalEndWrite()
+								}
+								lc.WalEndRead()
+							}
+							lc.walClose()
+						}
+					} else if lc.LockReserved() == 0 {
 						if g := liveNow(); g != nil {
 							r.Failf("c11.halt-local-reserved", "a local connection was granted RESERVED while halt lock id=%d is held by a remote node (%v left)", g.id, time.Until(g.expires))
 						}
